@@ -42,6 +42,16 @@ fn variants(t: &mut Tape, plan: &XzPlan) -> Vec<(XzPlan, String, String)> {
             0x2121,
             t.u64() & 0x7FFF_FFFF_FFFF_FFFF,
         ]);
+        // 0x21 with two equal 7-bit groups elsewhere (integers are stored in 7-bit
+        // groups: a decoder that lets two groups overlap cancels them), and 0x21 with
+        // one extra bit anywhere above the low byte
+        for _ in 0..3 {
+            let i = t.range(1, 7);
+            let j = t.range(i + 1, 8);
+            let p7 = t.range(1, if j == 8 { 0x7F } else { 0x7F });
+            ids.push(0x21 | (p7 << (7 * i)) | (p7 << (7 * j)));
+        }
+        ids.push(0x21 | (1u64 << t.range(8, 62)));
         for id in ids {
             if id == 0x21 {
                 continue;
